@@ -122,7 +122,13 @@ CbExit(St, e) ==
                             e.code # 2 \/ \A w \in Dom(St.H.member) : St.H.member[w] = s => (w \in regd \/ (w = wr /\ rt \in St.wakeReading)),
                             "the task's waitable set contains a waitable that no operation is registered for (C18)")
         St6 == Need(St5, St.expectWake = 0, "a sleeping task was woken but no wakeup item was written (C23)")
-    IN St6
+        \* C23: a task that suspends with its wakeup read in flight must have the wakeup stream's readable end in the set it
+        \* waits on, or the item another task writes can never wake it
+        St7 == IF e.code # 2 \/ rt = 0 \/ rt \notin St.wakeReading THEN St6
+               ELSE LET wr == GetOr(St.wakeR, rt, 0) IN
+                    Need(St6, wr \in Dom(St.H.member) /\ St.H.member[wr] = e.set,
+                         "the task went to sleep with its wakeup read outside the waitable set it waits on: a cross-task wake would be lost (C23)")
+    IN St7
 
 Decide(St, e) == St
 Note(St, e) == IF e.msg = "dropped while joined" THEN Bad(St, "a waitable was dropped while still a member of a waitable set (C18)") ELSE St
